@@ -117,7 +117,7 @@ func drainRaw(ch <-chan *protocol.Message) (closed bool) {
 
 func resStr(r interface{}, err error, ref []byte) string {
 	if err != nil {
-		if err.Error() == "protocol: not finished" {
+		if drv.IsNotFinished(err) {
 			return "running"
 		}
 		return "err"
